@@ -239,6 +239,16 @@ def check_cfg(F, R, cfg):
             (R.ok if good else R.viol)("C08.sign.wiring", I(short(f)), "raw_sign(expand(self.secret_key), msg, &self.verifying_key)" if good else
                                        "signing does not use the key's own seed expansion and verifying key", *(() if good else (fv.loc(t["line"]),)))
     R.floor("C08.sign.wiring", I("SigningKey -> raw_sign call sites"), wired, 2)
+    import sig_rules as SR
+    for clause, f, status, msg in SR.sign_rule(F):
+        if status == "ok":
+            R.ok("C08.sem.sign", I("SigningKey::try_sign"), msg)
+        elif status == "viol":
+            R.viol("C08.sem.sign", I("SigningKey::try_sign"), msg, F.loc(f) if f else "")
+        elif status == "missing":
+            R.anchor_missing("C08.sem.sign", I("SigningKey::try_sign"), msg)
+        else:
+            R.note("C08.sem.sign inconclusive (%s): the structural rules decide" % msg[:160])
 
     # ------------------------------------------------------------------ keypair import mismatch check
     kp = fn("ed25519_dalek::signing::SigningKey::from_keypair_bytes")
